@@ -20,7 +20,7 @@ CHECKS = {
    text="Seeded mixed KV/list/set/zset histories incl. failed and rolled-back transactions; at each reopen the full observation just before Close must equal the one just after Open at the same simulated instant.",
    note="Structures other than KV are exercised in key+value mode only (the only mode that supports them)."),
  "C10": dict(cat="fault_enumeration", tech="deterministic simulation with crash injection: crash and torn-write images at file-mutation points, recovery judged against the model states S / S+T",
-   text="Crash images (page cache survives) at a seeded sample of the file-mutation points of every run (thorough: all), plus torn prefixes of writes at record-field boundaries, in FileIO and MMap, SyncEnable on/off, with same-millisecond transactions and failed commits; every image is mounted, opened and fully observed and must equal the acknowledged state or that plus the in-flight transaction.",
+   text="Crash images (page cache survives) at a seeded sample of the file-mutation points of every run (thorough: all), plus torn prefixes of writes at record-field boundaries, in FileIO and MMap, SyncEnable on/off, with same-millisecond transactions and failed commits; every image is mounted, opened and fully observed and must equal the acknowledged state or that plus the in-flight transaction. One run in seven is a scheduled multi-goroutine program: the image must show a prefix of the lock-grant order that contains every acknowledged write transaction and only transactions that had been granted the lock.",
    note="Process-crash model: completed writes survive, the write in flight survives as a prefix. Restart takes >= 1 ms."),
  "C11": dict(cat="fault_enumeration", tech="deterministic simulation with power-loss injection: per-file durable image + seeded subset/prefix/torn unsynced operations, recovery judged against S / S+T",
    text="As C10 with SyncEnable=true and power-loss images: files revert to their last-synced content plus a seeded choice among unsynced operations; unsynced creations may vanish and removals may be undone.",
@@ -38,7 +38,7 @@ CHECKS = {
    text="KV (TTL, deletes, failed transactions; both RAM modes), sets and sorted sets (ZAdd/ZRem) with 64-256 B segments; Merge at seeded points, twice in a row, failing via injected open/truncate/remove/read/write errors; later writes; reopen; every observation equals the model.",
    note="Known findings K4 (positional sorted-set removals under a partial Merge) and K5 (lists under Merge) are avoided narrowly and re-demonstrated from their witnesses."),
  "C16": dict(cat="fault_enumeration", tech="deterministic simulation with crash injection inside Merge: crash and torn images at Merge's file-mutation points, recovery must equal the pre-Merge model state",
-   text="C15's histories with crash and torn-write images at the file-mutation points inside Merge (quick: half, thorough: all); each image is mounted, opened and fully observed and must equal the state before Merge.",
+   text="C15's histories with crash and torn-write images at the file-mutation points inside Merge (quick: half, thorough: all); each image is mounted, opened and fully observed and must equal the state before Merge. One run in five runs Merge beside 2-5 scheduled tasks of View/Update transactions; an image from inside Merge must show a prefix of the lock-grant order between 'acknowledged' and 'granted'.",
    note="Known finding K4a (positional sorted-set removals) and K5 (lists) avoided as in C15."),
  "C02": dict(cat="exploration", tech="deterministic simulation: seeded single-bucket KV histories in sparse index mode with small segments and clean reopens, refinement against the ordered-map+TTL model",
    text="Seeded Put/PutWithTimestamp/Delete/TTL histories in HintBPTSparseIdxMode with segments of a few hundred bytes (most keys live in sealed segments behind on-disk B+ tree, root-index and tx-id files), interleaved with Close/Open and clock moves; Get of every key, GetAll, RangeScan (incl. ranges strictly inside one segment's span) and PrefixScan without limit compared with the model after every step.",
